@@ -71,8 +71,11 @@ func (f *fileDecorator) fragment(node ast.Node) {
 
 					// Avoid newlines in multi-line comments
 					if strings.HasPrefix(c.Text, "/*") {
+						// The scanner strips carriage returns from comment text, so in a source
+						// with CRLF line endings the end position computed from the length of
+						// the text falls short. The line feeds are all still there.
 						startLine := f.Fset.PositionFor(c.Pos(), false).Line
-						endLine := f.Fset.PositionFor(c.End(), false).Line
+						endLine := startLine + strings.Count(c.Text, "\n")
 
 						// multi line comment
 						if endLine > startLine {
@@ -93,8 +96,10 @@ func (f *fileDecorator) fragment(node ast.Node) {
 						continue
 					}
 
+					// As with comments, carriage returns are stripped from raw string values, so
+					// the last line is found by counting line feeds.
 					startLine := f.Fset.PositionFor(frag.Pos, false).Line
-					endLine := f.Fset.PositionFor(frag.Pos+token.Pos(len(frag.String)), false).Line
+					endLine := startLine + strings.Count(frag.String, "\n")
 
 					// multi line string
 					if endLine > startLine {
